@@ -432,3 +432,81 @@ negative_comp!(pslow_negative_comp_f64_k1_tie, f64, F64, 1, 63, -3, 0, true);
 negative_comp!(pslow_negative_comp_f64_k3_tie, f64, F64, 3, 63, -3, 0, true);
 negative_comp!(pslow_negative_comp_f32_k2_tie, f32, F32, 2, 40, -6, 0, true);
 negative_comp!(pslow_negative_comp_f32_k1_tie, f32, F32, 1, 30, -3, 0, true);
+
+// ---------------------------------------------------------------- negative_digit_comp: scaling plan (all inputs)
+//
+// Bigint::pow as a pure recorder (the big integers are left unscaled).  Contract of
+// negative_digit_comp itself, for ALL estimates and ALL negative scales:
+//   b   = the estimate truncated to a float (C18),  b+h = (2 m_b + 1) * 2^(e_b - 1);
+//   the digits D * 10^real_exp are compared with b+h on a common scale:
+//   (2 m_b + 1) is multiplied by 5^(-real_exp); with binary_exp = (e_b - 1) - real_exp,
+//   (2 m_b + 1) is multiplied by 2^binary_exp if it is positive, otherwise D by 2^(-binary_exp);
+//   the result is b, or the float above b, according to the comparison (Equal -> even).
+static mut NP_N: usize = 0;
+static mut NP_REC: [(u64, u32, u32); 3] = [(0, 0, 0); 3];
+fn rec_bigint_pow(this: &mut Bigint, base: u32, exp: u32) -> Option<()> {
+    unsafe {
+        assert!(NP_N < 3, "at most three scalings");
+        let id = if this.data.len() == 0 { 0 } else { this.data[0] };
+        NP_REC[NP_N] = (id, base, exp);
+        NP_N += 1;
+    }
+    Some(())
+}
+
+macro_rules! negative_plan {
+    ($name:ident, $t:ty, $fmt:expr) => {
+        #[kani::proof]
+        #[kani::unwind(8)]
+        #[kani::stub(Bigint::pow, rec_bigint_pow)]
+        fn $name() {
+            let d: u64 = kani::any();
+            kani::assume(d != 0);
+            let fp = ExtendedFloat { mant: kani::any(), exp: kani::any() };
+            kani::assume(fp.mant >> 63 == 1);
+            kani::assume(fp.exp >= -63 && (fp.exp as i64) < $fmt.inf_e as i64 - (63 - $fmt.ms as i64));
+            let real_exp: i32 = kani::any();
+            kani::assume(real_exp < 0 && real_exp >= -4000);
+            // b by the (proved) truncating round; its IEEE fields by literals
+            let mut bf = fp;
+            round::<$t, _>(&mut bf, round_down);
+            let b_bits = bf.mant | ((bf.exp as u64) << $fmt.ms);
+            assert!(spec_is_rtz($fmt, fp.mant, fp.exp, b_bits));
+            let e_field = b_bits >> $fmt.ms;
+            let frac = b_bits & ((1u64 << $fmt.ms) - 1);
+            let (m_b, e_b): (u64, i32) = if e_field == 0 { (frac, 1 - $fmt.bias) } else { (frac + (1u64 << $fmt.ms), e_field as i32 - $fmt.bias) };
+            let theor = 2 * m_b + 1;
+            kani::assume(d != theor); // the recorder tells the two integers apart by their value
+            let r = negative_digit_comp::<$t>(Bigint::from_u64(d), fp, real_exp);
+            let binary_exp = (e_b - 1) - real_exp;
+            let half = (-real_exp) as u32;
+            unsafe {
+                let mut k = 0;
+                assert!(NP_N >= 1 && NP_REC[0] == (theor, 5, half), "P-SLOW b+h is scaled by 5^(-real_exp)");
+                k += 1;
+                if binary_exp > 0 {
+                    assert!(NP_N == k + 1 && NP_REC[k] == (theor, 2, binary_exp as u32), "P-SLOW positive binary exponent: b+h scaled by 2^binary_exp");
+                } else if binary_exp < 0 {
+                    assert!(NP_N == k + 1 && NP_REC[k] == (d, 2, (-binary_exp) as u32), "P-SLOW negative binary exponent: the digits scaled by 2^(-binary_exp)");
+                } else {
+                    assert!(NP_N == k, "P-SLOW equal scales: no power of two applied");
+                }
+            }
+            // the recorder left both integers unscaled: the comparison seen by the code is d ? theor
+            let rbits = r.mant | ((r.exp as u64) << $fmt.ms);
+            let expect = if d > theor {
+                b_bits + 1
+            } else if d < theor {
+                b_bits
+            } else {
+                0 // excluded above
+            };
+            assert!(rbits == expect, "P-SLOW rounds up exactly when the digits exceed b+h");
+            kani::cover!(binary_exp > 0 && d > theor);
+            kani::cover!(binary_exp < 0 && d < theor);
+            kani::cover!(e_field == 0, "subnormal b");
+        }
+    };
+}
+negative_plan!(pslow_negative_plan_f64, f64, F64);
+negative_plan!(pslow_negative_plan_f32, f32, F32);
